@@ -1,1 +1,31 @@
-(* placeholder *)
+(* C17 - Ready is true only while the server is really listening.
+   ONLY statements.  The model is the labelled transition system of Sys.v:
+   every interleaving of the Run thread, any number of Stop calls, connection
+   goroutines, per-request goroutines (with arbitrary handler scripts) and the
+   environment (clients, barriers, slow OnClose).  [reachable cfg s]: s is the
+   result of some label sequence from the initial state.  The boolean fields
+   of [cfg] are the places where the pinned and the current tree differ;
+   [fixed_cfg] is the current tree (validated behaviourally on every run by the
+   scenario correspondence), [pinned_cfg] the tree before the fix commits. *)
+From G Require Import Base Sys SysProofs SysProps.
+Open Scope nat_scope.
+
+Theorem C17_ready_bound : forall cfg s, ready_on_error cfg = false -> reachable cfg s ->
+  ready s = true -> stops s = [] -> accept_failed s = false ->
+  lst s = Listening /\ in_loop (run s) = true /\ port_bound s = true.
+Proof. exact c17_ready_means_listening. Qed.
+Print Assumptions C17_ready_bound.
+
+Theorem C17_connect_succeeds : forall cfg s, ready_on_error cfg = false -> reachable cfg s -> alive s = true ->
+  ready s = true -> stops s = [] -> accept_failed s = false -> step cfg s EConnect <> None.
+Proof. exact c17_connect_succeeds. Qed.
+Print Assumptions C17_connect_succeeds.
+
+Theorem C17_run_error : forall cfg s, ready_on_error cfg = false -> reachable cfg s ->
+  run s = RRet true -> accept_failed s = false -> ready s = false.
+Proof. exact c17_run_error. Qed.
+Print Assumptions C17_run_error.
+
+Theorem C17_pinned_refuted : exists s, run_labels pinned_cfg init [ECallRun true false; LRun] = Some s /\ run s = RRet true /\ ready s = true.
+Proof. exact c17_pinned_refuted. Qed.
+Print Assumptions C17_pinned_refuted.
